@@ -119,6 +119,24 @@ def run(repo: Repo, tier: str) -> Report:
                                                       "error_model='numpy' changes division by zero" if bad else "unexpected parallel=True (reduction order)"),
                f"{k.name}: decorator options {sorted(k.options.items())}", line=k.node.lineno)
     # ---- NB-PROMOTE
+    _weak: Dict[str, set] = {}
+
+    def weak_ints(k) -> set:
+        if k.name not in _weak:
+            plain: Dict[str, list] = {}
+            for st in ast.walk(k.node):
+                if isinstance(st, ast.Assign):
+                    for t in st.targets:
+                        if isinstance(t, ast.Name):
+                            plain.setdefault(t.id, []).append(st.value)
+                        elif isinstance(t, ast.Tuple):
+                            for e_ in t.elts:
+                                if isinstance(e_, ast.Name):
+                                    plain.setdefault(e_.id, []).append(None)
+                elif isinstance(st, (ast.For, ast.comprehension)) and isinstance(st.target, ast.Name):
+                    plain.setdefault(st.target.id, []).append(None)
+            _weak[k.name] = {n for n, vs in plain.items() if vs and all(isinstance(v, ast.Constant) and type(v.value) is int for v in vs)} - set(k.params)
+        return _weak[k.name]
     seen = set()
     n_arith = 0
     for f in ok_facts:
@@ -138,6 +156,14 @@ def run(repo: Repo, tier: str) -> Report:
                 bad = f"{l} {b['fn']} <int literal>: NumPy keeps {le} (weak Python int), Numba widens to int64"
             elif re_ in NARROW_INT and not is_array(l) and b.get("lhs_lit"):
                 bad = f"<int literal> {b['fn']} {r}: NumPy keeps {re_} (weak Python int), Numba widens to int64"
+            if bad is None:
+                # an accumulator that only ever starts from an int literal is a weak Python int in the interpreter: the first `acc += a[i]` with a
+                # narrow-integer element makes it that NumPy scalar type (and it wraps from then on), while Numba types it int64 throughout
+                for wide, wv, nar, nt in ((l, b.get("lhs_var"), r, re_), (r, b.get("rhs_var"), l, le)):
+                    base = (wv or "").split(".")[0].lstrip("$")
+                    if nt in NARROW_INT and not is_array(nar) and not is_array(wide) and elem(wide) in ("int64", "uint64") and base and base in weak_ints(k):
+                        bad = (f"`{base}` starts from an int literal and takes {nar} operands: NumPy makes it {nt} (wraps), Numba keeps int64 "
+                               f"(initialise with a float or widen the operand explicitly)")
             if bad:
                 key = (k.name, b["line"], b["fn"])
                 if key in seen:
@@ -209,7 +235,7 @@ def run(repo: Repo, tier: str) -> Report:
             nm = c["callee"].split(":")[-1]
             if nm in SPECIAL and SPECIAL[nm] is not None:
                 n_special += 1
-                sites.add((k.name, c["line"]))
+                sites.add((k.name, nm))      # per (kernel, function): merging two statements into one expression is not a lost site
                 argok = c["args"] is not None and all("float64" in a and "float32" not in a for a in c["args"])
                 ok = argok and c["ret"] == "float64"
                 rep.ob("R-VENDOR", k.file, k.name, f"scipy.special.{SPECIAL[nm]} binds the all-float64 overload", ok,
